@@ -202,7 +202,8 @@ def r16_2(ctx, g):
         ctx.missing(R, 'anchor:get_key', 'get_key / get_key_into not found')
         return
     some_ok = none_ok = False
-    for p in explore(gk, max_visits=1):
+    import vsplit
+    for p in vsplit.vpaths(lib, gk, enter=False, havoc=False):       # `cond.then_some(key)` read as its two outcomes
         if p.end != 'return':
             continue
         rv = p.ret()
